@@ -199,11 +199,21 @@ func ioReader(sc *IOFaultScenario, out *core.Outcome) {
 		}
 		return resKey(r.D, r.Err)
 	}
+	// The fault-free run is the baseline. It may itself contain errors (an input the library
+	// rejects for reasons that are other properties' business, e.g. known finding K02): an error
+	// is part of the sequence, identified by its full text, and the same error at the same place
+	// of a faulty run is not attributed to the fault.
+	ekey := func(r DResult) string {
+		if r.D != nil || r.P != nil {
+			return key(r)
+		}
+		return "ERR:" + r.Err.Error()
+	}
 	base, _ := pull(clean, nil)
 	var want []string
 	for _, r := range base {
-		if r.D != nil || r.P != nil {
-			want = append(want, key(r))
+		if !errors.Is(r.Err, astits.ErrNoMorePackets) {
+			want = append(want, ekey(r))
 		}
 	}
 	one := func(k int) {
@@ -237,7 +247,7 @@ func ioReader(sc *IOFaultScenario, out *core.Outcome) {
 				if reported {
 					break // nothing is asserted after the failure was reported
 				}
-				if n >= len(want) || key(r) != want[n] {
+				if n >= len(want) || ekey(r) != want[n] {
 					out.Violate("C18", "not-a-prefix", sig, "reader fails at byte %d: result %d delivered before the failure is not the fault-free result %d", k, ci, n)
 					break
 				}
@@ -259,7 +269,12 @@ func ioReader(sc *IOFaultScenario, out *core.Outcome) {
 				}
 				break
 			}
-			// another error
+			// another error: the one the fault-free run reports at this very place, or a violation
+			if n < len(want) && ekey(r) == want[n] {
+				out.Probe("baseline-error-reproduced")
+				n++
+				continue
+			}
 			if sr.FaultN > 0 {
 				out.Violate("C18", "reader-error-not-wrapped", sig, "reader fails at byte %d (%s): call %d returned %v, which does not wrap the reader's error", k, posClass, ci, r.Err)
 			} else {
